@@ -497,7 +497,9 @@ class WARCRecorder(object):
         Returns:
             str, None: A string in the form ``type/subtype`` or None.
         '''
-        match = re.match(r'([a-zA-Z0-9-]+/[a-zA-Z0-9-]+)', value)
+        # type "/" subtype, each an RFC 7230 token ("vnd.ms-excel", "svg+xml")
+        match = re.match(
+            r"([!#$%&'*+.^_`|~a-zA-Z0-9-]+/[!#$%&'*+.^_`|~a-zA-Z0-9-]+)", value)
 
         if match:
             return match.group(1)
